@@ -118,13 +118,17 @@ def make_lines(sched, real_thread_line, log):
     """stand-ins for MyProcessLine / ThreadLine bound to one scheduler"""
     from traceback import format_tb
 
+    import coba.pipes.lines as _cpl
+    import coba.pipes.multiprocessing as _cpm
+
     class SimProcessLine:
-        """the glue of coba.pipes.lines.ProcessLine (spawn, result pipe, join-and-callback thread) re-expressed on
-        actors: the child works on a deep copy of the line (as a spawned child works on an unpickled copy) that
-        shares the simulated queues/event; its (exception, traceback, poisoned) result is delivered when it ends."""
+        """the glue of coba.pipes.lines.ProcessLine / MyProcessLine (spawn, result pipe, join-and-callback thread, read-wait
+        hand-shake) re-expressed on actors: the child works on a deep copy of the line (as a spawned child works on an
+        unpickled copy) that shares the simulated queues/events and executes the REAL ProcessLine.run (exception capture and
+        wrapping, poisoned flag) on it; its result tuple is delivered through a stand-in for the pipe when it ends."""
         n = 0
         def __init__(self, line, callback=None, read_wait_store=None):
-            self._line, self._callback = line, callback
+            self._line, self._callback, self._rw = line, callback, read_wait_store
             self.exitcode, self.pid = None, None
             self._alive = False
         def start(self):
@@ -133,12 +137,19 @@ def make_lines(sched, real_thread_line, log):
             child_line = copy.deepcopy(self._line)
             self._alive = True
             me = self
+            if self._rw is not None:                      # as MyProcessLine.start
+                self._wait = _cpm.spawn_context.Event()
+                self._wait_key = _cpm.UniqueKey()
+                self._rw[self._wait_key] = self._wait
+            class _Pipe:
+                def send(self, x): me._result = x
+            class _Child: pass
+            ch = _Child(); ch._line = child_line; ch._send = _Pipe()
             def child():
-                try:
-                    child_line.run()
-                except Exception as e: res = (e, format_tb(e.__traceback__), hasattr(child_line[0],'_poisoned') and child_line[0]._poisoned)
-                else: res = (None, None, hasattr(child_line[0],'_poisoned') and child_line[0]._poisoned)
-                me._result = res
+                _cpl.ProcessLine.run(ch)                  # the real run(): try line.run(), capture/wrap the exception, send the result
+                if hasattr(me, '_wait'):                  # as MyProcessLine.run
+                    child_line[-1].write([me._wait_key])
+                    me._wait.wait()
                 me.exitcode = 0
                 me._alive = False
             a = sched.spawn(f"worker{self.pid}", child)
